@@ -228,6 +228,9 @@ func checkC19(c *Check) {
 		"the hand-out is dominated by the usability test and by a lifetime test whose direction is evaluated in a 'fresh' and a 'stale' model world; a bucket is unlinked from the table in the critical section that closes it and is only (re)inserted in the critical section that read or created it; shutdown sets the marker Return tests, under the same lock; the remote target is the only user."
 	c.notCover = "liveness (eventually closed), fairness, blocking; the interleaving space is not explored."
 
+	c.Rule("L1", "pool lock: every mutex the package's functions take is released on every path to a return, and nothing unlocks a mutex it does not hold (immediate or deferred; function literals separately)", 4)
+	lockBalance(c, "L1", []string{poolRel}, nil)
+
 	pk := p.Pkg(poolRel)
 	if pk == nil {
 		c.Rule("R1", "lock discipline", 1)
